@@ -5,6 +5,7 @@
 EXTENDS News, Json
 
 CONSTANTS MaxDepth, MaxArts, MaxSteps, GenDepth,
+          NTexts, \* how many different titles (1..3) and bodies (1..2) a post can carry
           Ops,    \* the step kinds enabled in this configuration
           Thin    \* TRUE: few argument variants per step kind (keeps random walks productive)
 
@@ -26,8 +27,8 @@ D0 == <<7, 234, 0, 0, 0, 0, 0, 1>>
 Init == /\ InitWith(U1) /\ hist = <<>>
 
 T3 == << <<32, 1>>, <<58, 1>> >>
-Titles == IF Thin THEN {T1, T2, T3} ELSE {T1, T2}
-Bodies == {B1, B2}
+Titles == IF NTexts >= 3 THEN {T1, T2, T3} ELSE IF NTexts = 2 THEN {T1, T2} ELSE {T1}
+Bodies == IF NTexts >= 2 THEN {B1, B2} ELSE {B1}
 
 CreateParents == {<<>>} \cup {p \in DOMAIN nodes : Len(p) < MaxDepth}
 (* a path that does not exist but whose parent does (for requests about missing items) *)
